@@ -267,6 +267,13 @@ func c13Gen(t *tape.Tape, ownProp func(string) bool) (prelude, recv string, step
 				steps = append(steps, c13Step{"lit-func-value", fmt.Sprintf(".{|x| S(%d); {|y| y + x}}", sl), sl})
 				break
 			}
+			if i == k-1 && t.Chance(1, 3) {
+				// a step that SUCCEEDS and whose result is an error taken out of another chain as a
+				// value (`.err`, `.A[1]`): a value like any other, not a failure of this step
+				ev := []string{"10.try./(0).err", "\"a\".try.{|s| raise ValueErr.new(\"inner\")}.A[1]", "5.try.nosuchprop.err"}[t.Intn(3)]
+				steps = append(steps, c13Step{"lit-error-value", fmt.Sprintf(".{|x| S(%d); %s}", sl, ev), sl})
+				break
+			}
 			steps = append(steps, c13Step{"lit-nested", fmt.Sprintf(".{|x| {|y| S(%d); (y * 2)}(x)}", sl), sl})
 		}
 	}
